@@ -1,1 +1,126 @@
-// harness file dp_scan (see /verif/DESIGN.md)
+// C18 harnesses (DP scanner part): src/dp/scan.rs, as crate::dp::scan::verif.
+
+use super::*;
+use crate::fdl::{DataTelegram, DataTelegramHeader, FdlApplication, FunctionCode, HighPrioOnly, ShortConfirmation, Telegram, TelegramTx};
+use crate::verif_support::*;
+
+fn any_scanner() -> DpScanner {
+    let mut stations: bitvec::BitArr!(for 128) = bitvec::array::BitArray::ZERO;
+    stations.data = [kani::any(), kani::any()];
+    let cursor: u8 = kani::any();
+    kani::assume(cursor <= 125);
+    DpScanner {
+        stations,
+        cursor,
+        pending_event: None,
+        current_address_done: kani::any(),
+    }
+}
+
+fn bit(words: &[usize; 2], a: u8) -> bool {
+    words[usize::from(a) / 64] >> (usize::from(a) % 64) & 1 != 0
+}
+
+fn others_unchanged(before: &[usize; 2], after: &[usize; 2], a: u8) -> bool {
+    let mut mask = [usize::MAX; 2];
+    mask[usize::from(a) / 64] &= !(1usize << (usize::from(a) % 64));
+    before[0] & mask[0] == after[0] & mask[0] && before[1] & mask[1] == after[1] & mask[1]
+}
+
+#[kani::proof]
+#[kani::unwind(12)]
+fn c18_scanner_transmit() {
+    let fdl = any_fdl();
+    let mut sc = any_scanner();
+    let pre_cursor = sc.cursor;
+    let pre_done = sc.current_address_done;
+    let pre_words = sc.stations.data;
+    let mut buf = [0u8; 12];
+    let now = crate::time::Instant::from_micros(kani::any::<u32>());
+    let hp = if kani::any() { HighPrioOnly::Yes } else { HighPrioOnly::No };
+    let res = sc.transmit_telegram(now, &fdl, TelegramTx::new(&mut buf), hp);
+    assert!(sc.stations.data[0] == pre_words[0] && sc.stations.data[1] == pre_words[1], "C18/list: asking for a telegram never changes the list");
+    if pre_done {
+        assert!(res.is_none(), "C18/sweep: after an address is done the application ends its turn");
+        assert!(sc.cursor == if pre_cursor == 125 { 0 } else { pre_cursor + 1 }, "C18/sweep: the sweep advances by exactly one address, wrapping after 125");
+        assert!(!sc.current_address_done, "C18/sweep: the next address is pending");
+    } else {
+        let r = res.unwrap();
+        let h = DataTelegramHeader {
+            da: pre_cursor,
+            sa: fdl.parameters().address,
+            dsap: Some(60),
+            ssap: Some(62),
+            fc: FunctionCode::Request { fcb: crate::fdl::FrameCountBit::First, req: crate::fdl::RequestType::SrdLow },
+        };
+        let mut expect = [0u8; 12];
+        let elen = ref_encode(&h, 0, |_| 0, &mut expect);
+        assert!(r.bytes_sent() == elen && r.expects_reply() == Some(pre_cursor), "C18/probe: a diagnostics request to the cursor address, expecting its reply");
+        let mut i = 0;
+        while i < elen {
+            assert!(buf[i] == expect[i], "C18/probe: the probe is a first-FCB diagnostics request (DSAP 60, SSAP 62) to the cursor address");
+            i += 1;
+        }
+        assert!(sc.cursor == pre_cursor && !sc.current_address_done, "C18/sweep: the cursor stays until reply or time-out");
+        kani::cover!(true, "cover: probe sent");
+    }
+    assert!(sc.cursor <= 125, "C18/probe: only addresses 0..125 are probed");
+}
+
+#[kani::proof]
+#[kani::unwind(12)]
+fn c18_scanner_reply_or_timeout() {
+    let fdl = any_fdl();
+    let mut sc = any_scanner();
+    kani::assume(!sc.current_address_done);
+    let addr = sc.cursor;
+    let pre_words = sc.stations.data;
+    let was_set = bit(&pre_words, addr);
+    let now = crate::time::Instant::from_micros(kani::any::<u32>());
+    if kani::any() {
+        let pdu: [u8; 9] = kani::any();
+        let plen: usize = kani::any();
+        kani::assume(plen <= 9);
+        let is_sc: bool = kani::any();
+        let dsap = any_sap();
+        let ssap = any_sap();
+        let t = if is_sc {
+            Telegram::ShortConfirmation(ShortConfirmation)
+        } else {
+            Telegram::Data(DataTelegram {
+                h: DataTelegramHeader { da: fdl.parameters().address, sa: addr, dsap, ssap, fc: any_response_fc() },
+                pdu: &pdu[..plen],
+            })
+        };
+        sc.receive_reply(now, &fdl, addr, t);
+        let diag_ok = !is_sc && dsap == Some(62) && ssap == Some(60) && plen >= 6;
+        let ev = sc.take_last_event();
+        assert!(others_unchanged(&pre_words, &sc.stations.data, addr), "C18/list: no other address changes");
+        if diag_ok {
+            let desc = DpPeripheralDescription {
+                address: addr,
+                ident: u16::from(pdu[4]) << 8 | u16::from(pdu[5]),
+                master_address: if pdu[3] == 255 { None } else { Some(pdu[3]) },
+            };
+            assert!(bit(&sc.stations.data, addr), "C18/list: a peripheral answering diagnostics is known");
+            if was_set {
+                assert!(ev == Some(DpScanEvent::PeripheralRequery(desc)), "C18/events: a known peripheral is re-queried, not found again");
+            } else {
+                assert!(ev == Some(DpScanEvent::PeripheralFound(desc)), "C18/events: Found, with ident number and master address from the reply, exactly when the peripheral was unknown");
+                kani::cover!(true, "cover: peripheral found");
+            }
+        } else {
+            assert!(ev.is_none(), "C18/events: a reply that is not a diagnostics response produces no event");
+            assert!(bit(&sc.stations.data, addr) == was_set, "C18/list: a reply that is not a diagnostics response does not change the list");
+            kani::cover!(!is_sc && plen < 6, "cover: short diagnostics reply ignored");
+        }
+    } else {
+        sc.handle_timeout(now, &fdl, addr);
+        assert!(!bit(&sc.stations.data, addr), "C18/list: a silent address is not known");
+        assert!(others_unchanged(&pre_words, &sc.stations.data, addr), "C18/list: no other address changes");
+        let ev = sc.take_last_event();
+        assert!(ev == if was_set { Some(DpScanEvent::PeripheralLost(addr)) } else { None }, "C18/events: Lost exactly when the peripheral was known");
+        kani::cover!(was_set, "cover: peripheral lost");
+    }
+    assert!(sc.current_address_done && sc.cursor == addr, "C18/sweep: the address is done");
+}
